@@ -354,6 +354,30 @@ def long_cases(rng, n):
     return res
 
 
+def injection_cases(tier):
+    """In-order histories only: the peer finds a block (or reorganises its tip) at EVERY point of a sync, with the
+    node's own steps (check, process, deliveries) placed explicitly around it - the worlds with something in flight
+    across a peer event, which the liveness theorems do not cover and where the in-order defect fd6e285 sat (an
+    announcement by inventory consumed while the last blocks were outstanding)."""
+    res = []
+    for n in ((4,) if tier == "quick" else (3, 4, 7)):
+        par = [[i, i - 1] for i in range(1, n + 3)] + [[60, n - 1], [61, 60], [62, 61]]
+        base = list(range(0, n + 1))
+        events = [base + [n + 1], base[:n] + [60, 61]] if tier == "quick" else \
+                 [base + [n + 1], base + [n + 1, n + 2], base[:n] + [60, 61], base[:n] + [60, 61, 62]]
+        ks = range(0, 3 * n + 8, 2 if tier == "quick" else 1)
+        for k in ks:
+            for before in ([], [["check"]], [["check"], ["answer", 0]], [["check"], ["answer", 0], ["deliver", 0]],
+                           [["process"], ["check"], ["answer", 0]]):
+                for after in ([], [["deliver", 0]], [["deliver", 0], ["deliver", 0], ["process"]],
+                              [["deliver", 0], ["process"], ["process"], ["process"], ["check"]]):
+                    for ev in events:
+                        ops = [["peer_set_best", base], ["settle", k]] + before + [["peer_set_best", ev]] + after + \
+                              [["settle", SETTLE]]
+                        res.append({"cfg": {"parents": par, "start": 0, "m": 2000}, "ops": ops, "origin": "scripted-injection"})
+    return res
+
+
 def make_cases(tier, rng, replay):
     if replay:
         return [{"cfg": replay.get("cfg", {}), "ops": replay["ops"], "origin": "replay"}]
@@ -370,6 +394,7 @@ def make_cases(tier, rng, replay):
     for c in hold_cases():
         c["origin"] = "scripted-hold"
         cases.append(c)
+    cases += injection_cases(tier)
     n = 150 if tier == "quick" else 3000
     for i in range(n):
         r = rng.fork(1000 + i)
